@@ -8,8 +8,9 @@ a forwarded `inplace` / False).
 Abstract objects: the source blobs SRC (everything reachable from what the caller passed in; for designspace roots
 SRC.font stands for the fonts attached to the document), GS (a glyph set passed separately to a filter), one object
 per allocation site and context (instances of analysed classes, containers, library objects), class / function /
-module objects, the concrete objects that exist at module and class level after import, NONE.  Numbers and strings are
-not objects.  Every *mutation site* (attribute / subscript store or delete, augmented assignment of a container,
+module objects, the concrete objects that exist at module and class level after import, NONE, and UNK: the one
+object that stands for every value that is not tracked (numbers, strings, ...; they cannot be written to, but they must
+be visible so that no decision rests on their absence -- see Analysis.__init__).  Every *mutation site* (attribute / subscript store or delete, augmented assignment of a container,
 mutator method, drawing into a pen, setattr, catalogued mutating library call) is one frame obligation
 `SRC not in points-to(target)`; it is discharged when the fixpoint has no source blob in the target's points-to set,
 otherwise the site is an alarm.  Mutations of module- / class-level objects are collected separately (global state).
@@ -670,6 +671,7 @@ class Analysis:
         self.dunder_insts = defaultdict(set)
         self.has_dunders = {}  # instance -> qualified names of the implicit special methods its class defines in analysed code
         self._fwd = None
+        self._upd_memo = None
         self.store_origin = None  # (context key, statement) while the values of an attribute-store statement are recorded
         self.pre_add = False  # True while an add that certainly precedes the container's escape is recorded
         self.broken_inv = set()  # (class, field) whose constructor-established invariant is violated by some other store
@@ -2879,12 +2881,18 @@ class Analysis:
                     return {o, self.rep_of(o)}  # the new child is one of the things o contains
                 if name in ("update", "extend", "setdefault", "difference_update", "intersection_update", "symmetric_difference_update"):
                     # dict.update(mapping / pairs), list.extend(iterable), ...: what the ARGUMENT holds becomes held by o
-                    for a_ in A:
-                        el = self.elements({a_})
-                        t_ = self.pytype_of(a_) if a_.kind in ("inst", "cont") else None
-                        if name == "update" and not (t_ is not None and issubclass(t_, dict)):
-                            el = el | self.pair_values(el)  # possibly an iterable of (key, value) pairs
-                        self.add(self.F[(o, "[]")], el)
+                    # (what the arguments contribute is the same for every receiver of this call: computed once)
+                    memo = self._upd_memo
+                    if memo is None or memo[0] is not args or memo[1] != name:
+                        tot = set()
+                        for a_ in A:
+                            el = self.elements({a_})
+                            t_ = self.pytype_of(a_) if a_.kind in ("inst", "cont") else None
+                            if name == "update" and not (t_ is not None and issubclass(t_, dict)):
+                                el = el | self.pair_values(el)  # possibly an iterable of (key, value) pairs
+                            tot |= el
+                        memo = self._upd_memo = (args, name, tot)
+                    self.add(self.F[(o, "[]")], memo[2])
                     for kk, (_, s_) in kwargs.items():
                         self.add(self.F[(o, "[]")], s_)
                 return {o}
@@ -3010,25 +3018,31 @@ class Analysis:
                 t = self.pytype_of(d)
                 if t is not None and issubclass(t, dict):
                     continue
+            rest = set()
             for p_ in self.elements({d}):
                 if p_.kind == "cont" and isinstance(p_.py, int) and p_.py >= 1:
                     out |= self.F[(p_, ("pos", 0))]
                 elif p_.kind in ("SRC", "GS"):
                     out.add(p_)
                 else:
-                    out |= self.elements({p_})
+                    rest.add(p_)
+            if rest:
+                out |= self.elements(rest)
         return out
 
     def pair_values(self, objs):
         """values of (key, value) pairs: the second position of 2-tuples, every element of anything else"""
         out = set()
+        rest = set()
         for o in objs:
             if o.kind == "cont" and o.py == 2:
                 out |= self.F[(o, ("pos", 1))]
             elif o.kind in ("SRC", "GS"):
                 out.add(o)
             else:
-                out |= self.elements({o})
+                rest.add(o)
+        if rest:
+            out |= self.elements(rest)
         return out
 
     def shallow_copy(self, node, origs, what="copy"):
